@@ -167,7 +167,10 @@ def build(inst):
             release_taskgraphs=o.get("release_taskgraphs", False),
             goal="max_goodput", time_limit=EventTime(-1, EventTime.Unit.S),
             time_discretization=ET(o.get("discretization", 1)),
-            plan_ahead=ET(o.get("plan_ahead", 10)), **common)
+            # plan_ahead "default": the scheduler's own default (-1 = derive the horizon
+            # from the largest deadline offered in each invocation)
+            plan_ahead=(EventTime.invalid() if o.get("plan_ahead") == "default"
+                        else ET(o.get("plan_ahead", 10))), **common)
         b.scheduler._policy = BranchPredictionPolicy.ALL
     elif pol == "TSC":
         b.scheduler = S.TetriSchedCPLEXScheduler(
